@@ -14,6 +14,12 @@ for root, ds, fs in os.walk(orig_wt):
     for f in fs:
         if f.startswith('seeded_demo'):
             rel = os.path.relpath(os.path.join(root, f), orig_wt); os.makedirs(os.path.dirname(os.path.join(wt, rel)), exist_ok=True); shutil.copy(os.path.join(root, f), os.path.join(wt, rel))
+# the demonstration file itself (all demos are tests/seeded_demo.rs): take it from the deliverables if the agent's worktree is gone
+if not os.path.exists(out) and os.path.isdir('/verif/seeded/%s' % tag):
+    shutil.copytree('/verif/seeded/%s' % tag, out)
+for _f in sorted(os.listdir(os.path.join(out, 'demo'))):
+    if _f.startswith('seeded_demo') and not os.path.exists(os.path.join(wt, 'tests', _f)):
+        os.makedirs(os.path.join(wt, 'tests'), exist_ok=True); shutil.copy(os.path.join(out, 'demo', _f), os.path.join(wt, 'tests', _f))
 def sh(cmd, cwd=None, timeout=3600):
     p = subprocess.run(cmd, shell=True, cwd=cwd, stdout=subprocess.PIPE, stderr=subprocess.STDOUT, text=True, timeout=timeout)
     return p.returncode, p.stdout
@@ -39,14 +45,20 @@ m = re.search(r'test result: \w+\. (\d+) passed; (\d+) failed', o)
 res['baseline_134_pass_with_change'] = bool(m and int(m.group(1)) >= 134 and int(m.group(2)) == 0)
 res['ran'].append('cargo test --workspace --no-fail-fast --offline (with change)')
 rc1, o1 = sh(runsh + ' 2>&1 | tail -25', timeout=3600)
-res['demo_with_change_tail'] = o1[-1500:]; res['demo_fails_with_change'] = ('FAILED' in o1 or 'panicked' in o1 or 'error' in o1.lower()) and 'test result: ok' not in o1.split('Running')[-1]
+res['demo_with_change_tail'] = o1[-1500:]; res['demo_ran'] = 'no test target' not in o1 and ('test result:' in o1 or 'panicked' in o1)
+res['demo_fails_with_change'] = res['demo_ran'] and ('test result: FAILED' in o1 or 'panicked' in o1) and 'test result: ok' not in o1.split('Running')[-1]
 sh('git apply -R %s' % patch, cwd=wt)
 rc2, o2 = sh(runsh + ' 2>&1 | tail -15', timeout=3600)
-res['demo_without_change_tail'] = o2[-800:]; res['demo_passes_without_change'] = 'test result: ok' in o2 or rc2 == 0 and 'FAILED' not in o2
+res['demo_without_change_tail'] = o2[-800:]; res['demo_passes_without_change'] = 'test result: ok' in o2 and 'FAILED' not in o2 and 'no test target' not in o2
 sh('git apply %s' % patch, cwd=wt)
 res['ran'] += [runsh + ' (with change: must fail)', runsh + ' (without change: must pass)']
 # our checks: only the source change is in play (remove demo files from the worktree view: they are untracked, harmless)
 res['checks'] = {}
+_prev = {}
+try: _prev = json.load(open('/verif/seeded/%s/meta.json' % tag)).get('confirmed_by_lead', {}).get('checks', {})
+except Exception: pass
+if os.environ.get('SEED_DEMO_ONLY'):
+    res['checks'] = _prev; checks = []
 for c in checks:
     t = time.time()
     rc, o = sh('VERIF_REPO=%s ./check %s 2>&1 | tail -5' % (wt, c), cwd='/verif', timeout=5400)
